@@ -50,6 +50,12 @@ CHECKS = {
         text='22 payloads containing every operator character alone and embedded are delivered through $V (exported and shell-local), ${V}, $(cmd), backquotes and a file name matched by *, unquoted and double-quoted, at six argument positions; the real planner must keep the template structure (no pipe, background job, extra command, redirection) and pass the payload as argument text (one argument inside double quotes). The same deliveries are executed by the real binary at two positions: helper runs once, in the foreground, no file appears.',
         note='Payload list is the bound; unquoted results may be split at blanks.',
         ref='DESIGN.md §4 C13'),
+    'C16': dict(
+        engine='E1 bounded-exhaustive input sweep (in-process, differential between entry paths) + real binary through four entry points',
+        technique='bounded-exhaustive enumeration of all lines over a 14-symbol alphabet with a differential oracle between the -c path and the script path of the real code; entry-point replay of bounded line sets through the real binary',
+        text='For every complete line up to length 4 (thorough 6) over {blank a quote dquote backslash | ; & > $ * ( ) {} the plans of the -c/prompt path and of the script/function/source path (after the positional-parameter pass) must be identical: list structure, argv, redirections, assignments, background flag. Bounded line sets from C01, C03, C04 and C10-C12 (about 240 lines, thorough about 1300) are run by the real binary through -c, a script file, a function body and a sourced file and compared with the -c run on helper records, created files, output and exit status.',
+        note='Lines without positional parameters and newlines; incomplete lines are skipped; the interactive prompt entry point is not driven by this check.',
+        ref='DESIGN.md §4 C16'),
     'C19': dict(
         engine='E1 bounded-exhaustive input sweep (in-process) + real binary',
         technique='bounded-exhaustive enumeration of all expression trees / all strings over the arithmetic alphabet against an exact reference evaluator (differential oracle, no sampling)',
